@@ -187,3 +187,31 @@ fn c13_tee_every_write_method_reaches_both_sinks() {
     }
     assert!(failed == (fa || fb), "C13.Tee.every_write_method.error_reported_iff_a_sink_failed");
 }
+
+// EitherWriter / OptionalWriter: every io::Write method goes to the side that is there, with the same bytes and result;
+// `none()` swallows (reports success, reaches no sink)
+#[kani::proof]
+#[kani::unwind(8)]
+#[kani::stub(core::fmt::Formatter::pad, pad_stub)]
+fn c13_either_and_optional_writer_forward_to_the_side_that_is_there() {
+    let side_a: bool = nd(); let fail: bool = nd();
+    FAIL[0].store(fail as usize, VSeq); FAIL[1].store(fail as usize, VSeq);
+    let mut w: EitherWriter<SinkW, SinkW> = if side_a { EitherWriter::A(SinkW(0)) } else { EitherWriter::B(SinkW(1)) };
+    let (here, other) = if side_a { (0usize, 1usize) } else { (1, 0) };
+    let method: u8 = nd(); kani::assume(method < 4);
+    let failed = match method {
+        0 => w.write(b"abc").is_err(),
+        1 => w.write_all(b"abc").is_err(),
+        2 => { let bufs = [io::IoSlice::new(b"abc")]; w.write_vectored(&bufs).is_err() }
+        _ => w.flush().is_err(),
+    };
+    if method == 3 { assert!(FLUSHED[here].load(VSeq) == 1 && FLUSHED[other].load(VSeq) == 0, "C13.EitherWriter.flush_reaches_only_the_present_side"); }
+    else { assert!(WRITES[here].load(VSeq) == 1 && LEN[here].load(VSeq) == 3 && WRITES[other].load(VSeq) == 0, "C13.EitherWriter.write_reaches_only_the_present_side_with_the_whole_buffer"); }
+    assert!(failed == fail, "C13.EitherWriter.result_is_the_present_sides");
+    // OptionalWriter
+    let mut some = OptionalWriter::some(SinkW(0)); let before = WRITES[0].load(VSeq);
+    let r = some.write_all(b"xy");
+    assert!(WRITES[0].load(VSeq) == before + 1 && r.is_err() == fail, "C13.OptionalWriter.some_forwards");
+    let mut none: OptionalWriter<SinkW> = OptionalWriter::none(); let b0 = WRITES[0].load(VSeq); let b1 = WRITES[1].load(VSeq);
+    assert!(none.write_all(b"xy").is_ok() && WRITES[0].load(VSeq) == b0 && WRITES[1].load(VSeq) == b1, "C13.OptionalWriter.none_swallows_and_reaches_no_sink");
+}
